@@ -223,8 +223,22 @@ fam('subsetcard', st.fixed_dictionaries({'B': bip_g(1, 4, 1, 4, 14), 'equal': st
 fam('kcolor', st.fixed_dictionaries({'k': ints(1, 3), 'G': simple_g(1, 5)}).filter(lambda p: p['k'] * p['G']['n'] <= 16),
     lambda p, c: [p['k']] + simple_tokens(c, p['G']),
     lambda p, cls: _lib().GraphColoringFormula(G_simple(p['G']), p['k'], formula_class=cls), graph_kinds=('simple',))
-fam('ec', st.fixed_dictionaries({'G': simple_g(1, 6, 14)}).filter(
-    lambda p: all(sum(1 for e in p['G']['edges'] if v in e) % 2 == 0 for v in range(1, p['G']['n'] + 1))),
+def _cycle(n, off=0):
+    return [[off + i, off + (i % n) + 1] if i < n else None for i in range(1, n + 1)]
+
+
+EVEN_GRAPHS = [
+    {'n': 1, 'edges': []}, {'n': 3, 'edges': []},
+    {'n': 3, 'edges': [[1, 2], [2, 3], [1, 3]]},
+    {'n': 4, 'edges': [[1, 2], [2, 3], [3, 4], [1, 4]]},
+    {'n': 5, 'edges': [[1, 2], [2, 3], [3, 4], [4, 5], [1, 5]]},
+    {'n': 5, 'edges': [[u, v] for u in range(1, 6) for v in range(u + 1, 6)]},
+    {'n': 6, 'edges': [[1, 2], [2, 3], [1, 3], [4, 5], [5, 6], [4, 6]]},
+    {'n': 5, 'edges': [[1, 2], [2, 3], [1, 3], [3, 4], [4, 5], [3, 5]]},
+    {'n': 6, 'edges': [[1, 2], [2, 3], [3, 4], [4, 5], [5, 6], [1, 6]]},
+    {'n': 7, 'edges': [[1, 2], [2, 3], [3, 4], [1, 4], [5, 6], [6, 7], [5, 7]]},
+]
+fam('ec', st.fixed_dictionaries({'G': st.sampled_from(EVEN_GRAPHS).map(lambda g: dict(g, **{'as': 'cnfgen'}))}),
     lambda p, c: simple_tokens(c, p['G']),
     lambda p, cls: _lib().EvenColoringFormula(G_simple(p['G']), formula_class=cls), graph_kinds=('simple',))
 fam('domset', st.fixed_dictionaries({'d': ints(1, 3), 'G': simple_g(1, 4), 'alternative': st.booleans()}).filter(
